@@ -112,13 +112,52 @@ def published_constants_ok():
 
 
 # ---- angle input types ----------------------------------------------------------------------
-INTYPES = ['float', 'deca', 'hpa', 'gona', 'dms', 'ddm']
+INTYPES = ['float', 'deca', 'hpa', 'gona', 'dms', 'ddm', 'dmss', 'ddms', 'dmsa', 'ddma']
+# dmss / ddms: the object rebuilt from its own text form (DMSAngle(str(o)): tiny seconds print in exponent notation);
+# dmsa / ddma: an object whose public fields were assigned after construction
 # other legal forms of a float: numpy float64 scalars (a float subclass) as produced by array indexing / numpy arithmetic
 NUMFORMS = ['np64', 'np0d', 'np32']
 
 
+FORM_MISMATCH = []      # (kind, intended decimal degrees, denoted decimal degrees); drained by core.eval_one after each case
+
+
+def denote(obj):
+    """decimal degrees an angle object denotes, read from its PUBLIC state with exact rationals (no library method)"""
+    from fractions import Fraction as F
+    from gpmc import oracle_misc as om
+    if isinstance(obj, ga.DMSAngle):
+        v = F(int(obj.degree)) + F(int(obj.minute), 60) + F(float(obj.second)) / 3600
+        return float(v if obj.positive else -v)
+    if isinstance(obj, ga.DDMAngle):
+        v = F(int(obj.degree)) + F(float(obj.minute)) / 60
+        return float(v if obj.positive else -v)
+    if isinstance(obj, ga.HPAngle):
+        sg, d, m, s, valid = om.hp_fields(float(obj.hp_angle))
+        return float(sg * (F(d) + F(m, 60) + s / 3600))
+    if isinstance(obj, ga.GONAngle):
+        return float(F(float(obj.gon_angle)) * 9 / 10)
+    if isinstance(obj, ga.DECAngle):
+        return float.__float__(obj)
+    raise TypeError(type(obj))
+
+
 def as_type(dec, kind):
-    """build an angle argument of the requested kind from decimal degrees (may raise for hpa: C08's business)"""
+    """build an angle argument of the requested kind from decimal degrees (may raise for hpa: C08's business).
+    The object must denote the requested angle (1e-11 deg): a constructor path that silently builds another angle is
+    recorded in FORM_MISMATCH and reported by core.eval_one as a violation of the property under check."""
+    o = _as_type(dec, kind)
+    if not isinstance(o, (_NumObj, float)):
+        try:
+            d = denote(o)
+        except Exception as e:
+            d = 'harness:' + repr(e)
+        if isinstance(d, str) or not abs(d - dec) <= 1e-11:
+            FORM_MISMATCH.append((kind, dec, d))
+    return o
+
+
+def _as_type(dec, kind):
     if kind == 'float':
         return float(dec)
     if kind == 'deca':
@@ -131,6 +170,20 @@ def as_type(dec, kind):
         return ga.dec2dms(dec)
     if kind == 'ddm':
         return ga.dec2ddm(dec)
+    if kind == 'dmss':
+        return ga.DMSAngle(str(ga.dec2dms(dec)))
+    if kind == 'ddms':
+        return ga.DDMAngle(str(ga.dec2ddm(dec)))
+    if kind == 'dmsa':
+        src = ga.dec2dms(dec)
+        o = ga.DMSAngle(12, 34, 56.789, positive=not src.positive)
+        o.degree, o.minute, o.second, o.positive = src.degree, src.minute, src.second, src.positive
+        return o
+    if kind == 'ddma':
+        src = ga.dec2ddm(dec)
+        o = ga.DDMAngle(12, 34.56789, positive=not src.positive)
+        o.degree, o.minute, o.positive = src.degree, src.minute, src.positive
+        return o
     if kind == 'np64':
         return _NumObj(np.float64(dec))
     if kind == 'np32':
@@ -153,6 +206,60 @@ class _NumObj(object):
 
 def unwrap(x):
     return x.value if isinstance(x, _NumObj) else x
+
+
+def exact_forms(v, f32=False):
+    """every numeric spelling that denotes EXACTLY the float v: (name, value) pairs. Integer spellings (Python int, numpy
+    signed/unsigned of 8..64 bits) only where v is integral and in range. float32 only on request and where the value
+    survives it: under NumPy 2 promotion a float32 operand turns the library's own float arithmetic into float32
+    arithmetic, which is NumPy's documented behaviour for that type and not a property of the library."""
+    import numpy as np
+    v = float(v)
+    out = [('np64', np.float64(v)), ('np0d', np.array(v))]
+    if f32 and float(np.float32(v)) == v:
+        out.append(('np32', np.float32(v)))
+    if v == int(v) and abs(v) < 2 ** 53:
+        i = int(v)
+        out.append(('int', i))
+        out.append(('npi64', np.int64(i)))
+        if -2 ** 31 <= i < 2 ** 31:
+            out.append(('npi32', np.int32(i)))
+        if 0 <= i:
+            out.append(('npu64', np.uint64(i)))
+            if i < 2 ** 32:
+                out.append(('npu32', np.uint32(i)))
+            if i < 2 ** 16:
+                out.append(('npu16', np.uint16(i)))
+            if i < 2 ** 8:
+                out.append(('npu8', np.uint8(i)))
+        if -128 <= i < 128:
+            out.append(('npi8', np.int8(i)))
+    return out
+
+
+def matrix_forms(m):
+    """the same matrix as the array objects a caller may legitimately hold: (name, array) pairs.
+    read-only (np.broadcast_to / memory-mapped / flags.writeable = False), Fortran order, a strided window into a larger
+    array, a transposed view of the transpose, an np.matrix, and integer / float32 dtypes where they hold the values exactly"""
+    import numpy as np
+    a = np.array(m, dtype=float)
+    out = []
+    ro = a.copy()
+    ro.setflags(write=False)
+    out.append(('readonly', ro))
+    out.append(('fortran', np.asfortranarray(a)))
+    big = np.full((2 * a.shape[0] + 1, 2 * a.shape[1] + 3), 7.25)
+    win = big[1::2, 2::2][:a.shape[0], :a.shape[1]]
+    win[...] = a
+    out.append(('window', win))
+    out.append(('tview', np.ascontiguousarray(a.T).T))
+    if a.ndim == 2:
+        out.append(('npmatrix', np.matrix(a)))
+    if np.all(a == np.round(a)) and np.all(np.abs(a) < 2 ** 31):
+        out.append(('int64', a.astype(np.int64)))
+    if np.all(a.astype(np.float32).astype(float) == a):
+        out.append(('float32', a.astype(np.float32)))
+    return out
 
 
 # ---- lattice helpers ------------------------------------------------------------------------
